@@ -85,7 +85,8 @@ def norm_path(p):
         if c == "<":
             prev = out[-1] if out else ""
             # generic list if it follows an identifier char or '::'
-            if prev and (prev.isalnum() or prev == "_" or (prev == ":" and len(out) >= 2 and out[-2] == ":")):
+            is_impl = p.startswith("<impl ", i)
+            if prev and not is_impl and (prev.isalnum() or prev == "_" or (prev == ":" and len(out) >= 2 and out[-2] == ":")):
                 depth = 0
                 j = i
                 while j < n:
@@ -626,8 +627,34 @@ class PathEval:
         if k in ("copy", "move"):
             return self.place_term(st, o["place"])
         if k == "const":
-            return ("const", o["ty"], const_value(o))
+            v = const_value(o)
+            if isinstance(v, tuple) and v and v[0] == "promoted":
+                r = self._promoted(v[1], v[2])
+                if r is not None:
+                    return r
+            return ("const", o["ty"], v)
         return ("unknown", o.get("s", ""))
+
+    _PROMOTED_CACHE = {}
+
+    def _promoted(self, owner, idx):
+        """value of a promoted constant: evaluate its (straight-line) body"""
+        key = "%s::promoted[%d]" % (owner, idx)
+        ck = (id(self.fx), key)
+        if ck in PathEval._PROMOTED_CACHE:
+            return PathEval._PROMOTED_CACHE[ck]
+        f = self.fx.fns.get(key)
+        r = None
+        if f is not None:
+            try:
+                ps = PathEval(self.fx, Body(f), max_paths=8).paths()
+                rets = [p for p in ps if p.end[0] == "return"]
+                if len(rets) == 1:
+                    r = rets[0].end[1]
+            except Exception:
+                r = None
+        PathEval._PROMOTED_CACHE[ck] = r
+        return r
 
     def rvalue(self, st, rv, bb):
         k = rv["k"]
@@ -896,11 +923,39 @@ class PathEval:
             return (not b) if flip else b
         return v
 
+    @staticmethod
+    def _eq_atom(c):
+        """(scrutinee, constant) if c is an equality test of something against a constant"""
+        if not isinstance(c, tuple):
+            return None
+        if c[0] == "binop" and c[1] == "Eq":
+            a, b = c[2], c[3]
+        elif c[0] == "call" and "PartialEq" in c[1] and c[1].endswith("::eq") and len(c[3]) == 2:
+            a, b = strip_refs(c[3][0]), strip_refs(c[3][1])
+        else:
+            return None
+        if isinstance(b, tuple) and b[0] == "const" and not (isinstance(a, tuple) and a[0] == "const"):
+            return (a, b[2])
+        if isinstance(a, tuple) and a[0] == "const" and not (isinstance(b, tuple) and b[0] == "const"):
+            return (b, a[2])
+        return None
+
     def _known(self, st, c):
         if isinstance(c, tuple) and c[0] == "const":
             v = c[2]
             return ("eq", v)
-        return st["facts"].get(c)
+        k = st["facts"].get(c)
+        if k is not None:
+            return k
+        # mutual exclusion: x == c1 already assumed true  =>  x == c2 is false for c2 != c1
+        at = self._eq_atom(c)
+        if at is not None:
+            for fc, fv in st["facts"].items():
+                if fv == ("eq", True):
+                    fa = self._eq_atom(fc)
+                    if fa is not None and fa[0] == at[0] and fa[1] != at[1]:
+                        return ("eq", False)
+        return None
 
 
 def body_of(fx, key):
